@@ -778,6 +778,19 @@ func fixExpressionTypes(exp syntax.Exp, tname syntax.TypeId, lookup *syntax.Type
 	}
 }
 
+// splitSourceType returns the type of the collection which a parameter of the
+// given type is split over in a map call: an array of, or a typed map of,
+// values of the parameter's type.
+func splitSourceType(tname syntax.TypeId, isMap bool) syntax.TypeId {
+	if !isMap {
+		tname.ArrayDim++
+	} else if tname.MapDim == 0 {
+		tname.MapDim = tname.ArrayDim + 1
+		tname.ArrayDim = 0
+	}
+	return tname
+}
+
 func convertToExp(parser *syntax.Parser, split bool, val json.Marshaler,
 	tname syntax.TypeId, lookup *syntax.TypeLookup) (syntax.ValExp, error) {
 	switch val := val.(type) {
@@ -790,6 +803,15 @@ func convertToExp(parser *syntax.Parser, split bool, val json.Marshaler,
 			}
 			if err := json.Unmarshal(val, &jv); err != nil {
 				return nil, err
+			}
+			// The parameter type is the type of one element of the
+			// collection being split.
+			if b := bytes.TrimLeft(jv.Split, " \t\r\n"); len(b) > 0 {
+				if b[0] == '[' {
+					tname = splitSourceType(tname, false)
+				} else if b[0] == '{' {
+					tname = splitSourceType(tname, true)
+				}
 			}
 			exp, err := convertToExp(parser, false,
 				jv.Split, tname, lookup)
@@ -809,6 +831,9 @@ func convertToExp(parser *syntax.Parser, split bool, val json.Marshaler,
 		res := syntax.MapExp{
 			Kind:  syntax.KindMap,
 			Value: make(map[string]syntax.Exp, len(val)),
+		}
+		if split {
+			tname = splitSourceType(tname, true)
 		}
 		if possibleStructType(tname, lookup) {
 			res.Kind = syntax.KindStruct
@@ -830,6 +855,9 @@ func convertToExp(parser *syntax.Parser, split bool, val json.Marshaler,
 			Kind:  syntax.KindMap,
 			Value: make(map[string]syntax.Exp, len(val)),
 		}
+		if split {
+			tname = splitSourceType(tname, true)
+		}
 		if possibleStructType(tname, lookup) {
 			res.Kind = syntax.KindStruct
 		} else if tname.MapDim > 0 {
@@ -848,6 +876,9 @@ func convertToExp(parser *syntax.Parser, split bool, val json.Marshaler,
 	case marshallerArray:
 		res := syntax.ArrayExp{
 			Value: make([]syntax.Exp, 0, len(val)),
+		}
+		if split {
+			tname = splitSourceType(tname, false)
 		}
 		if tname.ArrayDim > 0 {
 			tname.ArrayDim--
